@@ -10,7 +10,7 @@ Open Scope Z_scope.
 
 Inductive cty := TInt | TUInt | TLL | TULL.
 Inductive unop := UNeg | UNot.
-Inductive binop := BAdd | BSub | BShl | BShr | BAnd | BOr
+Inductive binop := BAdd | BSub | BMul | BShl | BShr | BAnd | BOr
                  | BLt | BGt | BLe | BGe | BEq | BNe | BLAnd | BLOr.
 Inductive cexpr :=
 | ELit (t : cty) (z : Z)
@@ -56,6 +56,7 @@ Definition eval_bin (o : binop) (ta : cty) (a : Z) (tb : cty) (b : Z) : option (
   match o with
   | BAdd => arith t (a' + b')
   | BSub => arith t (a' - b')
+  | BMul => arith t (a' * b')
   | BAnd => Some (t, conv t (Z.land a' b'))
   | BOr => Some (t, conv t (Z.lor a' b'))
   | BShl =>   (* 6.5.7: result type is that of the promoted left operand *)
